@@ -845,12 +845,15 @@ CALLER_METADATA = [[["x-verif", "1"]], [["x-verif", "1"]], [], [["x-verif", "1"]
 
 
 def run_api(ctx, r, specs, label, ncalls=4, requests=None, templates="standard", layout=None, rest_async=False,
-            caller_header=0.0):
+            caller_header=0.0, shared_metadata=None):
     """generate one API for `specs` (services and messages placed per `layout`), T2 on the schema objects, T3 on the
     emitted clients (standard templates: sync gRPC, asyncio gRPC, REST and — with `rest_async` — asyncio REST; ads
     templates: sync gRPC).  All calls of one client kind to one service go through ONE client object, one after the
     other (a program, not isolated calls).  `caller_header`: share of calls in which the caller passes an own
-    x-goog-request-params pair (outside the statement: model comparison only)."""
+    x-goog-request-params pair (outside the statement: model comparison only).  The caller's `metadata=` argument is,
+    per call, absent (the default), a new list, a new tuple, or one of three objects the caller keeps for the whole
+    program (two lists, one tuple) and passes again and again (`shared_metadata=True`: every call passes list 0;
+    False: never)."""
     import gapic.utils as gu
     layout = layout or FLAT
     files = build_files(specs, layout)
@@ -861,7 +864,8 @@ def run_api(ctx, r, specs, label, ncalls=4, requests=None, templates="standard",
         yaml_path = write_service_yaml(api_root(layout, used))
         params += ",service-yaml=" + yaml_path
     try:
-        _run_api(ctx, r, specs, label, ncalls, requests, templates, layout, files, used, params, bool(yaml_path), caller_header, gu)
+        _run_api(ctx, r, specs, label, ncalls, requests, templates, layout, files, used, params, bool(yaml_path), caller_header, gu,
+                 shared_metadata)
     finally:
         if yaml_path:
             try:
@@ -870,7 +874,12 @@ def run_api(ctx, r, specs, label, ncalls=4, requests=None, templates="standard",
                 pass
 
 
-def _run_api(ctx, r, specs, label, ncalls, requests, templates, layout, files, used, params, rest_async, caller_header, gu):
+SHARED_OBJECTS = [{"kind": "list", "pairs": [["x-verif", "1"]]}, {"kind": "list", "pairs": []},
+                  {"kind": "tuple", "pairs": [["x-verif", "1"], ["x-other", "a=b&c d"]]}]
+
+
+def _run_api(ctx, r, specs, label, ncalls, requests, templates, layout, files, used, params, rest_async, caller_header, gu,
+             shared_metadata=None):
     req = apigen.request(files, params)
     base = {"specs": specs, "spec": specs[0], "templates": templates, "layout": layout, "rest_async": rest_async}
     sig = None
@@ -966,6 +975,7 @@ def _run_api(ctx, r, specs, label, ncalls, requests, templates, layout, files, u
     try:
         calls_by = {(i, k): [] for i in used for k in kinds}
         index = []
+        store = copy.deepcopy(SHARED_OBJECTS)     # the caller's metadata objects of this program (declared once per session)
         for s, reqs, modes in plans:
             i = svc_index(s, layout)
             m = svcs[i].methods[s["name"]]
@@ -973,12 +983,24 @@ def _run_api(ctx, r, specs, label, ncalls, requests, templates, layout, files, u
                 b64 = codec.encode_b64(m.input.ident.proto, nest(q))
                 user_md = [list(x) for x in r.pick(CALLER_METADATA)]
                 own = bool(caller_header) and r.maybe(caller_header)
-                if own:     # outside the statement: the caller passes an own routing header
+                how = r.pick(["shared0"] * 5 + ["shared1"] * 2 + ["shared2"] * 2 + ["default"] * 3 + ["list"] * 4 + ["tuple"] * 4)
+                if shared_metadata is not None:
+                    how = "shared0" if shared_metadata else r.pick(["default", "list", "tuple"])
+                if own:     # outside the statement: the caller passes an own routing header (in an object of its own)
                     user_md = user_md[:1] + [[HDR, "caller=" + r.pick(["1", "a/b", "x y"])]] + user_md[1:]
+                    how = r.pick(["list", "tuple"])
+                if how == "default":
+                    md_obj, user_md = None, []
+                elif how.startswith("shared"):
+                    md_obj = int(how[-1])
+                    user_md = store[md_obj]["pairs"]
+                else:
+                    store.append({"kind": how, "pairs": user_md})
+                    md_obj = len(store) - 1
                 call = {"method": gu.to_snake_case(m.client_method_name), "mode": mode,
                         "py_request": rpc.py_type(m.input), "request_b64": b64,
                         "consume": "stream" if s.get("stream") == "ss" else "value",
-                        "call_kwargs": {"metadata": user_md}}
+                        "metadata_obj": md_obj, "call_kwargs": {}}
                 if mode == "request-literal-dict":
                     call["request_literal"] = nest(q, literal=True)      # what a caller writes, not rebuilt from bytes
                 if s.get("stream") == "cs":
@@ -986,20 +1008,15 @@ def _run_api(ctx, r, specs, label, ncalls, requests, templates, layout, files, u
                 rest_ok = (any(k in REST_KINDS for k in kinds) and not s.get("stream") and bool(s["http"]) and
                            s["http"]["verb"] in STD_VERBS and
                            all(rest_accepts(var_toks(s["http"], v), q.get(v, "")) for v in http_vars(s["http"])))
-                index.append((s, q, mode, rest_ok, user_md, own))
+                index.append((s, q, mode, rest_ok, user_md, own, md_obj, how))
                 for k in kinds:
                     if k not in REST_KINDS or rest_ok:
                         calls_by[(i, k)].append(copy.deepcopy(call))
 
         def sess_op(i, k):
             loc = locs[i]
-            if k == "grpc":
-                return {"op": "grpc_session", "client": loc["client"], "transport": loc["grpc"], "async": False, "calls": calls_by[(i, k)]}
-            if k == "grpc_asyncio":
-                return {"op": "grpc_session", "client": loc["async_client"], "transport": loc["grpc_asyncio"], "async": True, "calls": calls_by[(i, k)]}
-            if k == "rest":
-                return {"op": "rest_session", "client": loc["client"], "transport": loc["rest"], "calls": calls_by[(i, k)]}
-            return {"op": "c06_rest_async_session", "client": loc["async_client"], "transport": loc["rest_asyncio"], "calls": calls_by[(i, k)]}
+            client = loc["async_client"] if k in ("grpc_asyncio", "rest_asyncio") else loc["client"]
+            return {"op": "c06_session", "kind": k, "client": client, "transport": loc[k], "objects": store, "calls": calls_by[(i, k)]}
         order = [(i, k) for i in used for k in kinds]
         out = dict(zip(order, libhost.run(root, [sess_op(i, k) for i, k in order], timeout=600)))
         for (i, kind), sess in out.items():
@@ -1013,11 +1030,22 @@ def _run_api(ctx, r, specs, label, ncalls, requests, templates, layout, files, u
             for k in range(len(reqs)):
                 mres.append(mo["results"][k] if "results" in mo else None)
         # what each transport does with the call's metadata (model: `callMetadata`, `grpcValues`, `restValue`)
-        tmodel = ctx.driver.ask([{"op": "c06.transport", "user": md, "extra": API_CLIENT,
-                                  "routing": (mo or {}).get("header")} for (_, _, _, _, md, _), mo in zip(index, mres)])
-        for (s, q, mode, rest_ok, user_md, own), mo, tm in zip(index, mres, tmodel):
+        # the program in the model (`runProgram`): per call what the transport receives, and the caller's objects afterwards
+        prog = ctx.driver.ask([{"op": "c06.program", "store": [o["pairs"] for o in store], "extra": API_CLIENT,
+                                "calls": [{"md": ix[6], "routing": (mo or {}).get("header")} for ix, mo in zip(index, mres)]}])[0]
+        tmodel = prog["wires"]
+        uses = {}
+        for ix in index:
+            uses[ix[6]] = uses.get(ix[6], 0) + 1
+        for (s, q, mode, rest_ok, user_md, own, md_obj, how), mo, tm in zip(index, mres, tmodel):
             i = svc_index(s, layout)
             payload = {"spec": s, "request": q, "mode": mode, "templates": templates, "layout": layout, "rest_async": rest_async}
+            if how.startswith("shared"):
+                # replay: the program "this method, called with each of its requests and then with this one, always
+                # passing the same list object"
+                plan_reqs = [qq for ss, qq, *_ in index if ss is s and qq is not q]
+                payload = {**payload, "requests": [q] + plan_reqs + [q], "shared_metadata": True}
+                payload.pop("request")
             present, want = expected_pairs(s, q)
             seen = {}
             for kind in kinds:
@@ -1044,11 +1072,25 @@ def _run_api(ctx, r, specs, label, ncalls, requests, templates, layout, files, u
                     lost = [k for k, _ in user_md if k.lower() not in got_keys]
                     if lost:
                         ctx.disagree("T3:c06.rest_metadata", f"{s['name']} via {kind}: caller metadata keys {lost} did not reach the HTTP server", {**payload, "client": kind})
+                # ---- the caller's metadata argument after the call (model: `program_store_unchanged`)
+                after = rec.get("metadata_after")
+                if md_obj is not None:
+                    decl = store[md_obj]
+                    want_after = [list(p) for p in prog["store"][md_obj]]
+                    if after is None or after["pairs"] != want_after or after["type"] != decl["kind"] or not after["same_object"]:
+                        ctx.disagree("T3:c06.caller_metadata", f"{s['name']} via {kind}: model leaves the caller's metadata {want_after}, impl {after}",
+                                     {**payload, "client": kind})
+                    if after is not None and (after["pairs"] != decl["pairs"] or after["type"] != decl["kind"]):
+                        ctx.fail("caller-metadata-mutated", f"{s['name']} via {kind}: the caller passed metadata={decl['kind']}({decl['pairs']}) "
+                                 f"and holds {after['type']}({after['pairs']}) after the call", {**payload, "client": kind})
                 if own:
                     ctx.count("probe", "caller-header:" + kind + ":" + str(len(hs)))
                     continue
                 if len(hs) > 1:
-                    ctx.fail("header-duplicated", f"{s['name']} via {kind}: {len(hs)} {HDR} headers: {hs}", {**payload, "client": kind})
+                    ctx.fail("header-count", f"{s['name']} via {kind}: the call carries {len(hs)} {HDR} entries {hs} (metadata passed: {how}"
+                             f"{', object used by %d calls of this program' % uses[md_obj] if how.startswith('shared') else ''}); "
+                             f"exactly one with this request's pairs {want} is due" if present else
+                             f"{s['name']} via {kind}: the call carries {len(hs)} {HDR} entries {hs}, none is due", {**payload, "client": kind})
                     continue
                 seen[kind] = hs[0] if hs else None
             if own:
@@ -1061,6 +1103,7 @@ def _run_api(ctx, r, specs, label, ncalls, requests, templates, layout, files, u
             ctx.count("expected_header", "present" if present else "absent")
             ctx.count("clients", templates + ":" + "+".join(sorted(seen)))
             ctx.count("call_mode", mode)
+            ctx.count("caller_metadata", how + (":reused" if how.startswith("shared") and uses[md_obj] > 1 else ""))
             ctx.count("header_x_rest", f"{'present' if present else 'absent'}/{'rest' if rest_ok else 'no-rest'}")
             known = None        # no listed finding shape (the ads templates honour google.api.routing since e7125a7)
             for kind, h in seen.items():
@@ -1153,7 +1196,7 @@ def run_payload(ctx, r, payload, label):
         if "requests" in payload:
             reqs = {s["name"]: payload["requests"]}
         run_api(ctx, r, [s], label, ncalls=3, requests=reqs, templates=payload.get("templates", "standard"),
-                layout=payload.get("layout"), rest_async=bool(payload.get("rest_async")))
+                layout=payload.get("layout"), rest_async=bool(payload.get("rest_async")), shared_metadata=payload.get("shared_metadata"))
     elif "template_segs" in payload:
         vals = [payload["value"]] if "value" in payload else None
         check_templates(ctx, r, 0, 6, extra=[(payload["template_segs"], vals)])
@@ -1226,7 +1269,9 @@ def run(ctx):
                 "fields; get/put/post/delete/patch or `custom {kind, path}` primary bindings, additional bindings) x "
                 "request values (matching, mutated to non-matching, empty, characters needing escaping) x {sync gRPC, asyncio "
                 "gRPC, REST, asyncio REST} x package layouts (service(s) and messages in the API package or in proto "
-                "sub-packages, one or two services) x caller metadata; distinct by (template, value) at function level and by (method spec, request) at "
+                "sub-packages, one or two services) x the caller's metadata argument (default, new list, new tuple, or a list / "
+                "tuple the caller keeps and passes again in later calls of the same client); per call: exactly one header entry "
+                "with THIS call's pairs, caller's argument unchanged; distinct by (template, value) at function level and by (method spec, request) at "
                 "T3; non-trivial = every (template, value) pair and every call of a method that has routing information")
     ctx.assume("request values contain no newline (`.` in `.*` does not match it; resource names never contain one)")
     ctx.assume("routing path templates follow routing.proto: exactly one named segment `{key=...}`, `**` only as the last "
@@ -1310,7 +1355,7 @@ def run_probe_api(ctx, r):
     variable-free primary path next to additional bindings that have variables; fewer variables in the primary path
     than in the binding)"""
     run_api(ctx, r, copy.deepcopy(PROBE_SPECS), "probe", requests=copy.deepcopy(PROBE_REQUESTS),
-            layout=dict(FLAT, kind="svc-sub", svc="admin"), rest_async=True, caller_header=0.5)
+            layout=dict(FLAT, kind="svc-sub", svc="admin"), rest_async=True, caller_header=0.35, shared_metadata=True)
     ctx.count("stream", "probe-api")
 
 
@@ -1348,7 +1393,7 @@ def replay(ctx, payload):
 
 
 CLAIM = dict(
-    text="Lean 4 proof on an executable model of create_metadata that explicit routing is the AIP-4222 fold (for every key the value sent is the capture of the LAST parameter with that key that matches with a non-empty capture; no header iff no parameter contributes; a parameter without template passes the field through and equals `{field=**}`), that the regex RoutingParameter builds captures exactly what a regex-free segment scanner of the template language captures (all templates with one named segment and `**` last, all newline-free values; also for templates without named segment), that implicit routing lists exactly the variables of the primary http path, reads every reserved-word segment of a (dotted) field path from the suffixed attribute — so the attribute path is always a valid Python expression — and sends the raw name, that an empty annotation and client-streaming explicit methods send nothing, that the schema-side RoutingRule.resolve agrees with the emitted chain when no value is empty, that the encoded header only contains URL-safe characters, that implicit routing depends on the google.api.http rule only through the path of its primary binding (any member of the pattern oneof incl. `custom {kind, path}`; additional bindings never read), that `{key}` parses to the same template as `{key=*}`, and that what the REST transports send (`dict(metadata)`) under a header name is the last value the gRPC transports send, so that all four transports carry exactly the computed routing header whenever the caller passes none of his own. Tie: T1 bridge of the field_headers regex and the reserved-name tables; T2 AST equality between the model regex and CPython's parse of the real to_regex().pattern, captures via Python re vs the Lean engine, field_headers/disambiguated, RoutingRule.resolve, urlencode; T3 the header seen by loopback gRPC (sync, asyncio) and HTTP servers for programs of calls (request objects, dicts rebuilt from bytes, literal dicts, request=None; unary, server- and client-streaming; additional bindings; integer path variables) through the emitted clients (sync gRPC, asyncio gRPC, REST, asyncio REST) of the standard templates and of the ads templates, for services declared in the API package or in proto sub-packages (six layouts, one or two services) vs the model (`c06.transport`: the header values each transport puts on the wire); a model-independent AIP-4222 reference resolver as oracle.",
+    text="Lean 4 proof on an executable model of create_metadata that explicit routing is the AIP-4222 fold (for every key the value sent is the capture of the LAST parameter with that key that matches with a non-empty capture; no header iff no parameter contributes; a parameter without template passes the field through and equals `{field=**}`), that the regex RoutingParameter builds captures exactly what a regex-free segment scanner of the template language captures (all templates with one named segment and `**` last, all newline-free values; also for templates without named segment), that implicit routing lists exactly the variables of the primary http path, reads every reserved-word segment of a (dotted) field path from the suffixed attribute — so the attribute path is always a valid Python expression — and sends the raw name, that an empty annotation and client-streaming explicit methods send nothing, that the schema-side RoutingRule.resolve agrees with the emitted chain when no value is empty, that the encoded header only contains URL-safe characters, that implicit routing depends on the google.api.http rule only through the path of its primary binding (any member of the pattern oneof incl. `custom {kind, path}`; additional bindings never read), that `{key}` parses to the same template as `{key=*}`, and that what the REST transports send (`dict(metadata)`) under a header name is the last value the gRPC transports send, so that all four transports carry exactly the computed routing header whenever the caller passes none of his own. Tie: T1 bridge of the field_headers regex and the reserved-name tables; T2 AST equality between the model regex and CPython's parse of the real to_regex().pattern, captures via Python re vs the Lean engine, field_headers/disambiguated, RoutingRule.resolve, urlencode; T3 the header seen by loopback gRPC (sync, asyncio) and HTTP servers for programs of calls (request objects, dicts rebuilt from bytes, literal dicts, request=None; unary, server- and client-streaming; additional bindings; integer path variables) through the emitted clients (sync gRPC, asyncio gRPC, REST, asyncio REST) of the standard templates and of the ads templates, for services declared in the API package or in proto sub-packages (six layouts, one or two services) vs the model (`c06.program` = `runProgram`: the header values each transport puts on the wire call after call, and the caller's metadata objects — lists and tuples kept and passed again across calls — after the program; theorems `program_wire_stateless`, `program_store_unchanged`, `program_one_header_per_call`: the header of a call depends on that call's own request only and the caller's argument is never written); a model-independent AIP-4222 reference resolver as oracle.",
     technique="Lean 4 theorems (induction over the parameter list; regex-engine proofs by induction over template segments) + translator bridge + differential T2/T3 against emitted clients on loopback servers",
     design="7.6",
     note="Values with newlines, templates with `**` before the last segment, literals with regex metacharacters, enum/bool routing fields are outside the generated space (stated as assumptions; probes recorded in the evidence). Four defects found by this check were repaired in /repo (findings/C06.json, fixed) and are regression inputs. A fifth (the ads templates ignored google.api.routing) was repaired as well; the ads T3 stream is a regression stream.",
